@@ -438,7 +438,9 @@ def run(tier):
     judge.run(single_requests(hist, params["single"], table))
     judge.run(real_requests(table, params), chunk=400)
 
-    damaged = selftest(judge.candidates, params["tlc_timeout"])
+    # the self-test needs an accepted trace; when the implementation is so wrong that none is
+    # accepted, the rejections above are the verdict and must not be masked by a tool error
+    damaged = selftest(judge.candidates, params["tlc_timeout"]) if (judge.candidates or not v.findings) else {"skipped": "no accepted trace (violations reported)"}
     bonus = apalache_bonus() if tier == "thorough" else "thorough tier only"
 
     v.coverage = {
